@@ -81,6 +81,17 @@ func strictVerifyKey(s *seed, mandated crypto.PublicKey, tok string) error {
 			}
 		}
 	}
+	if k, ok := hdr["kid"]; ok {
+		// a key embedded in the key id (did:jwk) is held to the same rule as one embedded in the jwk header
+		var kid string
+		if json.Unmarshal(k, &kid) == nil && strings.HasPrefix(kid, "did:jwk:") {
+			enc := strings.SplitN(strings.TrimPrefix(kid, "did:jwk:"), "#", 2)[0]
+			var m map[string]any
+			if raw, err := base64.RawURLEncoding.DecodeString(enc); err == nil && json.Unmarshal(raw, &m) == nil && jwkIsPrivate(m) {
+				return errors.New("kid is a did:jwk that carries private key material")
+			}
+		}
+	}
 	input := s.input(parts[0], parts[1])
 	switch pub := mandated.(type) {
 	case ed25519.PublicKey:
